@@ -64,6 +64,27 @@ build_variant() {
     echo "$LIBKEY" > "$D/lib/.key"
     relink=1
   fi
+  # dictionary of the integer literals in the library's sources (gen_common.h, literalPass): a value the code treats
+  # specially is one of them, whatever tree is being checked
+  if [ ! -s "$D/lib/literals.txt" ] || [ "$D/lib/.key" -nt "$D/lib/literals.txt" ]; then
+    python3 - "$REPO" > "$D/lib/literals.tmp" <<'PY'
+import glob, re, sys
+vals = set()
+for f in sorted(glob.glob(sys.argv[1] + "/src/*.cpp") + glob.glob(sys.argv[1] + "/include/asam_cmp/*.h")):
+    txt = open(f, errors="replace").read()
+    txt = re.sub(r"//[^\n]*", " ", txt)
+    for m in re.finditer(r"(?<![\w.])(0[xX][0-9a-fA-F]+|\d+)(?:[uUlL]*)(?![\w.])", txt):
+        try:
+            v = int(m.group(1), 0) if m.group(1).lower().startswith("0x") else int(m.group(1).lstrip("0") or "0")
+        except ValueError:
+            continue
+        if 8 < v < 2**64:
+            vals.add(v)
+for v in sorted(vals)[:4000]:
+    print(v)
+PY
+    mv "$D/lib/literals.tmp" "$D/lib/literals.txt"
+  fi
   if [ "$(cat "$D/sim/.key" 2>/dev/null)" != "$SIMKEY" ]; then
     rm -f "$D"/sim/*.o
     local SRCS
